@@ -225,6 +225,9 @@ func (c *ConfigFile) validateCommonFields() (*ConfigFile, error) {
 		maxFailuresRate := 0
 		c.Limits.MaxFailuresRate = &maxFailuresRate
 	}
+	if *c.Limits.Concurrency < 1 {
+		return nil, fmt.Errorf("concurrency %d can't be less than 1", *c.Limits.Concurrency)
+	}
 	if c.Default.Concurrency == nil {
 		c.Default.Concurrency = c.Limits.Concurrency
 	}
@@ -410,6 +413,9 @@ func (s *Stage) validateUsersStage(idx int, defaults Stage) (*Stage, error) {
 		}
 
 		s.Concurrency = defaults.Concurrency
+	}
+	if *s.Concurrency < 1 {
+		return nil, fmt.Errorf("concurrency %d can't be less than 1 at stage %d", *s.Concurrency, idx)
 	}
 	if s.Parameters == nil {
 		if defaults.Parameters == nil {
